@@ -75,6 +75,12 @@ def run(ck):
     fail = [r for r in rec if "'success': False" in u(r[0])]
     ok_fail = len(fail) == 1 and any(k[0] == 'truth' and k[1].startswith('_resiter(') for k in flow.atoms_of(fail[0][1]))
     ck.ob('MPT-report', mod.loc(ann), ok_fail, 'a request that matches no residue of a molecule is recorded as a failure for that molecule', key='MPT-report|record-failure')
+    # the consumer (run_system) reads "some entry says success" as "nothing to report for this molecule": a success entry is therefore written once per
+    # molecule, after all requests were tried -- not once per request that matched (which would hide every request that did not)
+    succ = [r for r in rec if "'success': True" in u(r[0])]
+    ok_succ = len(succ) == 1 and not [l for l in mod.ancestors(succ[0][0]) if isinstance(l, (ast.For, ast.While))]
+    ck.ob('MPT-report', mod.loc(ann), ok_succ, 'the "all fine" entry of a molecule is written once, after the loops over the requests ({} site(s){})'.format(
+        len(succ), '' if ok_succ or not succ else ', inside a loop'), key='MPT-report|success-once')
     warn = [c for c in walk_local(rs) if isinstance(c, ast.Call) and call_attr(c) == 'warning']
     per_request = False
     if warn:
@@ -194,6 +200,12 @@ def run(ck):
                 names[k] = 'TERMNAME'
         ok = flow.equivalent(flow.rename(c, names), flow.parse_formula('DEG1 and TERMNAME'))[0]
     ck.ob('DT-terminal', mod.loc(rmatch), ok, 'the terminal rule applies exactly to residues with a single neighbour when nter/cter is asked for', key='DT-terminal|degree')
+    # whatever else is asked (a terminus), the remaining parts of the request -- the chain -- are still compared: every way of saying "matches" ends in _subdict
+    rets_ = [r_ for r_ in walk_local(rmatch) if isinstance(r_, ast.Return)]
+    ok = bool(rets_) and all(try_fold(r_.value, default=1) is False or (isinstance(r_.value, ast.Call) and call_name(r_.value) == '_subdict' and u(r_.value.args[1]) == 'residue')
+                             for r_ in rets_)
+    ck.ob('DT-terminal', mod.loc(rmatch), ok, 'a residue is accepted only through the comparison of the remaining request parts with its chain, number, name and insertion code '
+          '(`return _subdict(<request>, residue)`), also when a terminus was asked for', key='DT-terminal|chain-still-compared')
     sub = mod.func('_subdict')
     ck.analysed(mod, sub)
     def mismatch_formula(f):
